@@ -13,7 +13,7 @@ import ast
 import itertools
 
 from engine.loader import AnalysisError, ClassInfo, FuncInfo, dotted, src, walk_own
-from engine.minieval import Evaluator, Obj, Raised, Unsupported
+from engine.minieval import Closure, Evaluator, Obj, Raised, Unsupported
 
 PID = "C08"
 EXPLANATION = (
@@ -151,6 +151,18 @@ class _Cycle(Exception):
     pass
 
 
+class _Made:
+    """an interface function bound at module level to the product of a factory; quacks like a FuncInfo where the rule needs one"""
+
+    def __init__(self, mod, name, rhs, closure):
+        self.module, self.name, self.qualname, self.closure = mod, name, name, closure
+        self.node = closure.node
+        self.decorators = []
+        self.file = mod.relpath
+        self.lineno = rhs.lineno
+        self.fq = f"{mod.name}:{name}"
+
+
 def check_interface(prog, ctx):
     """R08.1 / R08.2 by abstract evaluation: every interface function is invoked as a function, as the method of the same
     name and through the autoray dispatch (`ar.do(name, ...)`, which resolves to the symmray function of that name), on an
@@ -170,7 +182,22 @@ def check_interface(prog, ctx):
     regs = {name: fsrc for (backend, name, fsrc, node) in mod.registrations if backend == "symmray"}
     w = World(prog)
     n = 0
-    for name, f in sorted(mod.functions.items()):
+    # interface functions are `def`s or, equally, public module-level names bound to a function made by a private factory
+    # (`max = _method_caller("max", doc)`): those are obtained by evaluating the binding
+    made = {}
+    anyf = next(iter(mod.functions.values()), None)
+    for name, rhs in sorted(getattr(mod, "assigns", {}).items()):
+        if name.startswith("_") or name in mod.functions or not isinstance(rhs, ast.Call) or anyf is None:
+            continue
+        try:
+            v = shaped_evaluator(prog).expr(rhs, {}, anyf)
+        except (Unsupported, Raised) + PYERR:
+            continue
+        if isinstance(v, Closure):
+            made[name] = _Made(mod, name, rhs, v)
+    funcs = dict(mod.functions)
+    funcs.update(made)
+    for name, f in sorted(funcs.items()):
         if name.startswith("_") or any("singledispatch" in d for d in f.decorators):
             continue
         a = f.node.args
@@ -187,12 +214,14 @@ def check_interface(prog, ctx):
 
             def ar_do(fn_name, *args, like=None, **kw):
                 target = prog.resolve_name(init, fn_name) or (mod.functions.get(regs.get(fn_name)) if fn_name in regs else None)
-                if any(isinstance(x, Obj) for x in args) and isinstance(target, FuncInfo):
+                if fn_name in made and not isinstance(target, FuncInfo):
+                    target = made[fn_name]
+                if any(isinstance(x, Obj) for x in args) and isinstance(target, (FuncInfo, _Made)):
                     if fn_name in active:
                         raise _Cycle(fn_name)
                     active.append(fn_name)
                     try:
-                        return ev.apply(target, list(args), kw, None)
+                        return ev.apply(target.closure if isinstance(target, _Made) else target, list(args), kw, None)
                     finally:
                         active.pop()
                 return get(like, fn_name)(*args, **kw)
@@ -213,7 +242,7 @@ def check_interface(prog, ctx):
                 try:
                     vals = build()
                     if way == "function":
-                        r = ev.apply(f, vals, {}, None)
+                        r = ev.apply(f.closure if isinstance(f, _Made) else f, vals, {}, None)
                     elif way == "autoray":
                         r = ar_do(name, *vals)
                     else:
@@ -266,7 +295,7 @@ def check_interface(prog, ctx):
                       f"autoray dispatch of '{name}' and symmray.{name}(...) give the same result on a {cls.name}"
                       + ("" if au_r == fn_r else f" — autoray: {str(au_r)[:160]} / function: {str(fn_r)[:160]}"))
     for rname, fsrc in sorted(regs.items()):
-        ctx.check(fsrc == rname and rname in mod.functions, "R08.2", (mod.relpath, rname), None, f"register {rname} -> {fsrc}",
+        ctx.check(fsrc == rname and rname in funcs, "R08.2", (mod.relpath, rname), None, f"register {rname} -> {fsrc}",
                   f"autoray registration '{rname}' points at the function of the same name")
     ctx.minimum("R08.1", 40, "interface wrappers x array classes")
     ctx.minimum("R08.2", 80, "wrappers x (export, function = method, autoray = function)")
